@@ -780,6 +780,10 @@ theorem histbtc_P03 (res : Nat → Nat) (m : List (Nat × Status)) (ops : List B
       intro x hx
       simp only [runBtc] at hx
       exact ih _ x hx
+    | timeout ns =>
+      intro x hx
+      simp only [runBtc] at hx
+      exact ih _ x hx
 
 /-- the defect repaired by `fix:` 986f0b8, kept as a witness: the as-found Substrate loop signs an executed proposal -/
 theorem subAsFound_violates : ∃ d, ¬ P03 (hasErr d) (wanted d) (subAsFound d).sessions :=
